@@ -19,7 +19,9 @@ META = {
         "in system attributes. The real BaseGASampler.get_trial_generation/get_population/get_parent_population (NSGA-II/III), "
         "and optuna.copy_study are executed with a symbolic trial-id offset (another study's trials share the id space), a "
         "symbolic parent subset and z3-real objective values; results expressed in trial numbers must not depend on the offset "
-        "and the cached second call must equal the first. A supplementary obligation (concrete differential, not solver-decided, "
+        "and the cached second call must equal the first. The second channel is representation order: backends return a trial's "
+        "dict fields in different orders and set iteration order changes with PYTHONHASHSEED; two obligations feed the real TPE split "
+        "and the real group-decomposed sample_relative the same data in every order and require equal results. A supplementary obligation (concrete differential, not solver-decided, "
         "labelled as such) runs whole seeded optimisations of every built-in sampler that works offline on storages that differ "
         "only in id offset / backend / split of the run and compares the trial sequences."
     ),
@@ -157,6 +159,72 @@ def bracket_offset_body():
         res.append(ids)
     sx.reach("compared")
     assert res[0] == res[1], f"Hyperband brackets depend on the trial-id offset {off}: {res}"
+    return True
+
+
+# ----------------------------------------------------------------------------- representation order (dict / set iteration order)
+def tpe_split_order_body():
+    """backends return a trial's dict fields in different orders (in-memory and journal keep the report order, the RDB sorts steps):
+    the TPE below/above split - the only place where TPE reads intermediate values - must not depend on that order"""
+    import itertools
+    from optuna.samplers._tpe import sampler as tpe_sampler
+    n = 3
+    direction = sx.choose(["minimize", "maximize"], "direction")
+    studies = [optuna.create_study(direction=direction, storage=InMemoryStorage()) for _ in range(2)]
+    for i in range(n):
+        st = TrialState[sx.choose(["COMPLETE", "PRUNED"], f"t{i}.state")]
+        v = sx.sym_real(f"v{i}") if st == TrialState.COMPLETE else None
+        items = []
+        if st == TrialState.PRUNED:
+            nst = sx.choose([0, 2, 3], f"t{i}.n_steps")
+            items = [(s_, sx.sym_float(f"t{i}_s{s_}", ("finite", "nan") if s_ == nst - 1 else ("finite",))) for s_ in range(nst)]
+        perm = sx.choose(list(itertools.permutations(range(len(items)))), f"t{i}.report_order") if len(items) > 1 else tuple(range(len(items)))
+        orders = [dict(items), dict(items[k] for k in perm)]
+        for study, iv in zip(studies, orders):
+            study.add_trial(create_trial(state=st, value=v, intermediate_values=iv))
+    n_below = sx.choose([0, 1, 2], "n_below")
+    res = []
+    for study in studies:
+        trials = study.get_trials(deepcopy=False)
+        below, above = tpe_sampler._split_trials(study, trials, n_below, False)
+        res.append(([t.number for t in below], [t.number for t in above]))
+    sx.reach("compared")
+    assert res[0] == res[1], f"TPE below/above split depends on the order in which the backend returns intermediate values: {res[0]} vs {res[1]}"
+    return True
+
+
+def tpe_group_order_body():
+    """the decomposed search-space groups are built from sets of strings, whose iteration order changes with PYTHONHASHSEED: the
+    dimension order handed to the estimator (which decides which part of the seeded random stream a parameter gets) must not
+    depend on it"""
+    import itertools
+    from optuna.distributions import FloatDistribution, IntDistribution
+    from optuna.search_space.group_decomposed import _SearchSpaceGroup
+    names = ["lr", "momentum", "width", "depth"]
+    dists = {"lr": FloatDistribution(1e-4, 1.0, log=True), "momentum": FloatDistribution(0, 1), "width": IntDistribution(1, 64), "depth": IntDistribution(3, 3)}
+    split = sx.choose([1, 2, 3, 4], "first_group_size")
+    groups = [names[:split], names[split:]]
+    seen = []
+    for variant in range(2):
+        sampler = optuna.samplers.TPESampler(seed=1, multivariate=True, group=True, n_startup_trials=0)
+        g = _SearchSpaceGroup()
+        spaces = []
+        for gi, grp in enumerate(groups):
+            if not grp:
+                continue
+            order = list(grp) if variant == 0 else [grp[k] for k in sx.choose(list(itertools.permutations(range(len(grp)))), f"hash_order_group{gi}")]
+            spaces.append({nm: dists[nm] for nm in order})
+        g._search_spaces = spaces
+        import types
+        sampler._group_decomposed_search_space = types.SimpleNamespace(calculate=lambda study, g=g: g)    # the real one iterates over sets
+        calls = []
+        sampler._sample_relative = lambda study, trial, search_space, calls=calls: (calls.append(list(search_space)), {})[1]
+        study = optuna.create_study(storage=InMemoryStorage())
+        inferred = sampler.infer_relative_search_space(study, None)                  # REAL code
+        sampler.sample_relative(study, None, inferred)                               # REAL code
+        seen.append((list(inferred), calls))
+    sx.reach("compared")
+    assert seen[0] == seen[1], f"dimension order handed to the estimator depends on the iteration order of the group's dict: {seen[0]} vs {seen[1]}"
     return True
 
 
@@ -322,8 +390,24 @@ def setup(concrete):
         psh.math = sx.mathshim
 
 
+def setup_tpe(concrete):
+    setup(concrete)
+    if not concrete:
+        from optuna.samplers._tpe import sampler as tpe_sampler
+        tpe_sampler.math = sx.mathshim
+
+
 CODE = [BaseGASampler.get_parent_population, BaseGASampler.get_trial_generation, BaseGASampler.get_population,
         optuna.copy_study, optuna.study.Study.add_trials, optuna.study.Study.add_trial]
+
+
+def _code_tpe():
+    from optuna.samplers._tpe import sampler as tpe_sampler
+    return [tpe_sampler._split_trials, tpe_sampler._split_pruned_trials, tpe_sampler._get_pruned_trial_score, tpe_sampler.TPESampler.sample_relative,
+            tpe_sampler.TPESampler.infer_relative_search_space]
+
+
+CODE_TPE = _code_tpe()
 
 
 def classify(c):
@@ -353,6 +437,12 @@ def obligations(tier):
         Obligation("copy-study", copy_study_body, setup, CODE, bounds=dict(trials=3, states=4, id_offset="0..2"), shard_depth=3,
                    budget_s=400, classify=classify, require_reach=["copied"],
                    describe="copy_study reproduces every field of every trial (values/intermediate values z3 reals, inf/NaN forks)"),
+        Obligation("tpe-split-order", tpe_split_order_body, setup_tpe, CODE_TPE, bounds=dict(trials=3, steps=[0, 2, 3], report_orders="all permutations", values="z3 reals / NaN"),
+                   shard_depth=4, budget_s=600, classify=classify, require_reach=["compared"],
+                   describe="TPE's below/above split does not depend on the order in which a backend returns a trial's intermediate values"),
+        Obligation("tpe-group-order", tpe_group_order_body, setup_tpe, CODE_TPE, bounds=dict(parameters=4, groupings=4, orders="all permutations per group"),
+                   budget_s=300, classify=classify, require_reach=["compared"],
+                   describe="group-decomposed TPE hands parameters to the estimator in an order independent of dict/set iteration order (PYTHONHASHSEED)"),
         Obligation("seeded-run-differential", None, None, [], custom=differential,
                    describe="SUPPLEMENTARY, concrete: seeded runs of 9 samplers x {Median, Hyperband} pruners x (id offset 3 | journal file | rerun | split) equal the in-memory run"),
     ]
